@@ -7,7 +7,7 @@ sys.path.insert(0, os.path.join(V, "tools"))
 from claims import CLAIMS
 ids = sys.argv[1:] or sorted(os.path.basename(d) for d in glob.glob(os.path.join(V, "seeded", "C*-*")))
 tier = os.environ.get("SEEDTEST_TIER", "quick")
-respath = os.path.join(V, "seeded", "RESULTS.json")
+respath = os.path.join(V, "seeded", "RESULTS.json" if os.environ.get("VERIF_NO_ORACLE") != "1" else "RESULTS-model-tie-only.json")
 res = json.load(open(respath)) if os.path.exists(respath) else {}
 def sh(c, **kw): return subprocess.run(c, shell=True, capture_output=True, text=True, **kw)
 assert sh("git -C /repo status --porcelain").stdout.strip() == "", "/repo not clean"
